@@ -122,7 +122,7 @@ def r1_merge(ctx, MAX):
         if len(heads) != 1 or not backs:
             ctx.unanalysable('C12.R1', 'C12.R1/merge_partitions/loop-shape', fn.path, fn.site(), {'heads': len(heads), 'back_edges': len(backs)}, cfg)
             continue
-        _, head, hst, mapping, valid = heads[0]
+        _, head, hst, mapping, valid, _entry = heads[0]
         # identify the roles of the head variables from the surviving invariant
         roles = {}
         for (i, a, b) in groups(mapping):
@@ -263,7 +263,7 @@ def r2_list(ctx):
             backs = [b for b in ip.back_states if b[0] == fnpath]
             ok = len(heads) == 1 and len(backs) >= 1
             if ok:
-                _, head, hst, mapping, valid = heads[0]
+                _, head, hst, mapping, valid, _entry = heads[0]
                 accs = [(hv, ev) for hv, ev in mapping if ev[0] == 'call' and ev[1].endswith('CharPartition::new')] if False else None
                 # accumulator: the head object whose entry value is CharPartition::new()
                 acc = None
